@@ -117,6 +117,8 @@ pub fn step(n: u64, start: u64, native_only: bool, f: impl FnOnce()) {
         NEXT_RET_SET = false;
     }
     out(&format!("{{\"k\":\"begin\",\"step\":{}}}", n));
+    // marker on stderr so that sanitizer/valgrind reports can be attributed to a step
+    eprintln!("@@step {}", n);
     let r = std::panic::catch_unwind(std::panic::AssertUnwindSafe(f));
     match r {
         Ok(()) => out(&format!("{{\"k\":\"end\",\"step\":{}}}", n)),
